@@ -7,7 +7,8 @@
 // addresses, type), using this file's own model of the documented normalisation.
 //
 // Domain (see DESIGN.md §3 C09 and §6): header values, subjects and file names are printable
-// ASCII plus U+00A0..U+00FF, do not begin or end with a space (the header writer trims values, the
+// ASCII plus U+00A0..U+00FF (and single control characters other than NUL and TAB between two printable ones),
+// do not begin or end with a space (the header writer trims values, the
 // wire format cannot carry it) and contain no well-formed RFC 2047 word "=?charset?x?text?=" (by
 // definition of the format such text *is* an encoded word). Addresses contain no ':' except the
 // explicit "SMTP:" prefix. Attachment names are not empty (NewFile documents a panic). The reader
@@ -37,7 +38,7 @@ import (
 
 func TestMain(m *testing.M) {
 	harness.Property("C09",
-		"messages built through NewMessage / Header.Set(Mid) / SetDate (any minute of years 1..9999, any zone) / SetFrom / AddTo / AddCc (0..5 addresses each: callsign with or without SSID, call@winlink.org, local@domain, SMTP:local@domain, any case) / SetSubject and NewFile names over printable ASCII + U+00A0..U+00FF (Q-encoding triggers ? = _, fragments of encoded-word syntax, values up to 270 characters) / SetBody (mixed LF/CRLF, lines around 998 bytes, non-ASCII) / 0..4 attachments of arbitrary bytes (empty, NUL, CRLF, header look-alikes) / 0..4 X- headers (repeated keys) / every MsgType; parsed back through a reader with a generated chunk schedule (1-byte reads included). Non-trivial = at least one attachment or a header that needs word-encoding; distinct by hash(serialised bytes, schedule).",
+		"messages built through NewMessage / Header.Set(Mid) / SetDate (any minute of years 1..9999, any zone) / SetFrom / AddTo / AddCc (0..5 addresses each: callsign with or without SSID, call@winlink.org, local@domain, SMTP:local@domain, any case) / SetSubject and NewFile names over printable ASCII + U+00A0..U+00FF (Q-encoding triggers ? = _, fragments of encoded-word syntax, values up to 270 characters; in an eighth of them one control character - CR, LF, CRLF, SOH, ESC, DEL, NEL, CSI; not TAB, which the word encoder passes through raw - between two printable characters) / SetBody (mixed LF/CRLF, lines around 998 bytes, non-ASCII) / 0..4 attachments of arbitrary bytes (empty, NUL, CRLF, header look-alikes) / 0..4 X- headers (repeated keys) / every MsgType; parsed back through a reader with a generated chunk schedule (1-byte reads included). Non-trivial = at least one attachment or a header that needs word-encoding; distinct by hash(serialised bytes, schedule).",
 		"domain: values without leading/trailing space and without a literal well-formed RFC 2047 word; addresses without ':' other than the SMTP: prefix; non-empty file names",
 		"address expectation is this package's model of the documented normalisation (short and @winlink.org addresses become the upper-cased callsign with empty Proto; anything else with '@' is Proto SMTP with the address unchanged), not AddressFromString",
 		"the reader returns 1..n bytes per call, never (0,nil), and io.EOF separately",
@@ -136,8 +137,13 @@ func inDomain(s string) bool {
 	if strings.HasPrefix(s, " ") || strings.HasSuffix(s, " ") || encodedWord.MatchString(s) {
 		return false
 	}
-	for _, r := range s {
-		if !(r >= 0x20 && r <= 0x7E) && !(r >= 0xA0 && r <= 0xFF) {
+	rs := []rune(s)
+	for i, r := range rs {
+		printable := (r >= 0x20 && r <= 0x7E) || (r >= 0xA0 && r <= 0xFF)
+		// control characters (C0 without NUL, DEL, C1) are characters of the format's character set too; the header
+		// writer trims white space at the edges, so they are in the domain only between two printable characters
+		control := (r >= 0x01 && r <= 0x1F) || (r >= 0x7F && r <= 0x9F)
+		if !printable && !(control && i > 0 && i < len(rs)-1) {
 			return false
 		}
 	}
@@ -761,6 +767,14 @@ func headerText(t *rapid.T, label string, long int) string {
 		i := encodedWord.FindStringIndex(s)
 		s = s[:i[0]+1] + s[i[0]+2:] // drop the '?' of the opening "=?"
 		s = strings.Trim(s, " ")
+	}
+	// a control character between two printable ones (a pasted line break, a tab, an escape sequence, NEL)
+	if r := []rune(s); len(r) >= 2 && r[0] != ' ' && r[len(r)-1] != ' ' && rapid.IntRange(0, 7).Draw(t, label+"_ctl") == 0 {
+		at := rapid.IntRange(1, len(r)-1).Draw(t, label+"_ctl_at")
+		ctl := rapid.SampledFrom([]string{"\r", "\n", "\r\n", "\x01", "\x1b", "\x7f", "\u0085", "\u009b"}).Draw(t, label+"_ctl_ch")
+		if v := string(r[:at]) + ctl + string(r[at:]); !encodedWord.MatchString(v) {
+			s = v
+		}
 	}
 	return s
 }
